@@ -83,10 +83,13 @@ func finiteNumber(r *rng, n, exp int) numSpec {
 	return numSpec{desc: fmt.Sprintf("F:%s:%d", digitsCSV(f), exp), length: n, digit: func(p int) int { return ff[p] }}
 }
 
+var illCounter int
+
 func genNumber(length, exp int, ill bool) numSpec {
 	i := 0
 	if ill {
-		i = 1
+		illCounter++
+		i = 1 + illCounter%5 // different out-of-range end values: 12, 261, -251, 65543, 2^40
 	}
 	// v1/v2 reach the source through the hook, whose contract requires a first digit 1-9 and -1 as end marker
 	return numSpec{desc: fmt.Sprintf("G:%d:%d:%d", length, exp, i), length: length, allV: length != 0 && !ill, digit: genDigit}
